@@ -15,11 +15,13 @@ PROP_FILES = ["Props/C20.v"]
 CASE_TIMEOUT = 60
 RULE = ("kind 0: generated programs (raise site x surrounding statements from a pool with markup-like text, non-ASCII, tabs, multi-line "
         "strings and calls, backslash continuations, comments ending in a backslash, f-strings) x origin (file, exec'd source-less code "
-        "under ordinary and markup-like file names, module-level code, a vendor module matched by the ignore pattern) x recursion depth "
-        "1..60 (self and mutual) x chained causes x 24 messages x 9 exception types x 4 verbosities x UTF-8 on/off x plain/ANSI x simple/"
-        "full x ignore pattern x working/home directory; kind 1: the highlighter on real Python files of the repository and the standard "
-        "library; kind 2: compact on frame sequences. non-trivial = distinct (site, origin, recursion, verbosity, message class) / file / "
-        "sequence")
+        "under ordinary and markup-like file names, module-level code incl. a failure on line 1..4 of its file, a vendor module, files of "
+        "more than 1000 lines) x recursion depth drawn uniformly from 1..60 (self and mutual) x chained causes x 32 messages (incl. CR, FF, "
+        "VT, FS/GS/RS, NEL, U+2028 and a final line break) x 16 exception types (two with a broken __str__) x 4 verbosities x UTF-8 "
+        "on/off x plain/ANSI x simple/full x 8 ignore patterns (absolute prefix, everything, nothing, relative fragments that re.match "
+        "must NOT honour, the program's own file) x working/home directory; kind 1: the highlighter on real Python files of the "
+        "repository and the standard library and on generated texts (tab-indented, non-ASCII, 1200 lines); kind 2: compact on frame "
+        "sequences. non-trivial = distinct (site, origin, recursion, verbosity, message class) / file / sequence")
 TRUSTED = ["tokenize, inspect and crashtest (Inspector, Frame) are outside clikit: their outputs (token streams, frames, file contents) are "
            "INPUTS of the model, taken from the same run; the hypotheses the theorems put on token streams (wf_tokens) are checked on "
            "every token stream of the run by the harness (validated, not proved); FrameCollection.compact is modelled and tied (kind 2)",
@@ -33,9 +35,13 @@ ASSUMPTIONS = ["exceptions that were raised (non-empty traceback); an exception 
 
 MSGS = ["boom", "", "two\nlines", "naïve é λ ✓", "<error>open", "close</error>", "</b>", "<b>bold</b> and <c1>x</c1>", "a < b > c",
         "trailing backslash \\", "back\\<slash", "<fg=red>x</>", "\\", "tab\there", "  padded  ", "<", "ends with <", "</>", "100% {braces}",
-        "\x1b[31mred\x1b[0m", "three\n\n  lines\\\nlast", "<fg=nope>y", "\\<b>", "x" * 300]
+        "\x1b[31mred\x1b[0m", "three\n\n  lines\\\nlast", "<fg=nope>y", "\\<b>", "x" * 300,
+        # characters str.splitlines() takes for line ends although "\n" is the only one the report knows, and a final line break
+        "a\rb", "a\x0cb", "a\u2028b", "ends\n", "a\x85b", "v\x0bt and fs\x1cgs\x1drs\x1e.", "x\r\ny", "\n"]
 EXCS = ["RuntimeError", "ValueError", "KeyError", "Custom", "MarkupName", "ClosingName", "OSError", "SyntaxError", "Lib",
-        "Sol0", "Sol1", "Sol2", "Sol3", "SolSelf"]
+        "Sol0", "Sol1", "Sol2", "Sol3", "SolSelf", "StrRaises", "StrNone"]
+N_PLAIN_EXCS = 9        # EXCS[9:14] offer solutions, EXCS[14:] have a broken __str__
+STR_FAILED = "<exception str() failed>"      # what the report says instead of a message that cannot be had (as CPython's traceback does)
 # solutions offered by the exception (crashtest ProvidesSolution / Solution): title, description, links
 SOLUTIONS = {
     "Sol0": [("Use the other thing.", "Do this\nand then that.", ["https://example.org/docs"])],
@@ -109,9 +115,14 @@ SITES = [
 ]
 
 
+# ignore patterns: none / the vendor directory (absolute prefix) / everything / nothing / a RELATIVE fragment of the vendor path (re.match
+# anchors at the start: it ignores nothing) / a fragment that matches anywhere only with a leading .* / exactly the program's own file
+IGNORES = [None, "vendor", ".*", "nomatch\\^", "vendor_pkg", "lib\\.py", ".*vendor_pkg", "progfile"]
+
+
 def _case(**kw):
     c = {"kind": 0, "head": [], "body": [], "site": 0, "tail": [], "ind": "    ", "origin": "file", "vendor": 0, "rec": "none", "depth": 1,
-         "msg": 0, "exc": 0, "verb": 0, "utf8": 1, "fmt": "plain", "simple": 0, "ignore": 0, "paths": 0}
+         "msg": 0, "exc": 0, "verb": 0, "utf8": 1, "fmt": "plain", "simple": 0, "ignore": 0, "paths": 0, "pad": 0, "top": 0}
     c.update(kw)
     return c
 
@@ -130,10 +141,13 @@ def gen(rng, tier, info):
     for e in range(len(EXCS)):
         for v in (0, 3):
             cases.append(_case(exc=e, verb=v, msg=rng.randrange(len(MSGS))))
-    for e in range(9, len(EXCS)):
+    for e in range(N_PLAIN_EXCS, len(EXCS)):
         for fmt in ("plain", "ansi"):
             for u in (0, 1):
                 cases.append(_case(exc=e, fmt=fmt, utf8=u, verb=rng.randrange(4)))
+    for e in (EXCS.index("StrRaises"), EXCS.index("StrNone")):
+        for simple in (0, 1):
+            cases.append(_case(exc=e, simple=simple, verb=rng.randrange(4)))
     for fi in range(len(FNAMES)):
         for v in (0, 1, 3):
             cases.append(_case(origin="exec:%d" % fi, verb=v, site=rng.randrange(len(SITES))))
@@ -149,9 +163,21 @@ def gen(rng, tier, info):
         for d in ([1, 2, 3, 5, 60] if quick else [1, 2, 3, 4, 5, 8, 13, 30, 60]):
             for v in (1, 3):
                 cases.append(_case(rec=rec, depth=d, verb=v))
-    for ign in (1, 2, 3):
+    for ign in range(1, len(IGNORES)):
         for v in range(4):
             cases.append(_case(vendor=1, ignore=ign, verb=v))
+            if ign >= 4:
+                cases.append(_case(vendor=1, ignore=ign, verb=v, rec="mutual", depth=3, fmt="ansi"))
+                cases.append(_case(vendor=0, ignore=ign, verb=v, origin="exec:0"))
+    # a failure on line 1..4 of its file (the window of the snippet is cut at the top), also as the only line
+    for top in (1, 2, 3, 4):
+        for v in (0, 3):
+            for fmt in ("plain", "ansi"):
+                cases.append(_case(origin="module", top=top, verb=v, fmt=fmt, tail=[0, 5] if top % 2 else []))
+        cases.append(_case(origin="module-exec", top=top, verb=1))
+    # files of more than 1000 lines: four-digit line numbers (and 999 -> 1000 inside one snippet)
+    for pad, v, fmt in ((1200, 0, "plain"), (1200, 3, "ansi"), (990, 0, "plain"), (994, 3, "plain"), (1200, 1, "plain")):
+        cases.append(_case(pad=pad, verb=v, fmt=fmt, head=[5], rec="self", depth=2))
     # --- kind 0, random part
     n_rand = 350 if quick else 6000
     if tier == "search":
@@ -163,9 +189,10 @@ def gen(rng, tier, info):
             body=[rng.randrange(len(BODY)) for _ in range(rng.randrange(0, 4))],
             tail=[rng.randrange(len(POOL)) for _ in range(rng.randrange(0, 4))],
             site=rng.randrange(len(SITES)), ind=rng.choice(["    ", "\t", "  "]), origin=origin,
-            vendor=rng.randrange(2), rec=rng.choice(["none", "none", "self", "mutual"]), depth=rng.choice([1, 2, 3, 4, 7, 20]),
+            vendor=rng.randrange(2), rec=rng.choice(["none", "none", "self", "mutual"]), depth=rng.randint(1, 60),
             msg=rng.randrange(len(MSGS)), exc=rng.randrange(len(EXCS)), verb=rng.randrange(4), utf8=rng.randrange(2),
-            fmt=rng.choice(["plain", "plain", "ansi"]), simple=int(rng.random() < 0.1), ignore=rng.randrange(4), paths=rng.randrange(3)))
+            fmt=rng.choice(["plain", "plain", "ansi"]), simple=int(rng.random() < 0.1), ignore=rng.randrange(len(IGNORES)), paths=rng.randrange(3),
+            pad=rng.choice([0] * 30 + [996, 1100]), top=(rng.randint(1, 4) if origin in ("module", "module-exec") and rng.random() < 0.3 else 0)))
     n0 = len(cases)
     # --- kind 1: the highlighter alone on real files
     files = _corpus_files(quick)
@@ -173,6 +200,16 @@ def gen(rng, tier, info):
         n = _count_lines(f)
         for line in sorted(set([1, 2, max(1, n // 2), max(1, n - 1), n, n + 1, rng.randrange(1, n + 2)])):
             cases.append({"kind": 1, "file": f, "line": line, "before": rng.choice([2, 4]), "after": rng.choice([2, 4]), "utf8": rng.randrange(2)})
+    # ... and on generated texts: tab-indented bodies, non-ASCII, form feed, a first token on line 2, 1200 lines
+    for k in range(12 if quick else 120):
+        cc = _case(head=[rng.randrange(len(POOL)) for _ in range(rng.randrange(1, 6))], body=[rng.randrange(len(BODY)) for _ in range(3)],
+                   tail=[rng.randrange(len(POOL)) for _ in range(rng.randrange(0, 4))], site=rng.randrange(len(SITES)),
+                   ind=("\t" if k % 2 == 0 else "  "), rec=rng.choice(["none", "mutual"]), pad=(1200 if k % 6 == 5 else 0))
+        text, site_line = build_source(cc)
+        n = len(text.split("\n"))
+        for line in sorted(set([1, 3, site_line, n - 1] + ([999, 1000, 1001] if cc["pad"] else []))):
+            cases.append({"kind": 1, "file": "generated-%d" % k, "text": text, "line": line, "before": rng.choice([2, 4]), "after": rng.choice([2, 4]),
+                          "utf8": rng.randrange(2)})
     n1 = len(cases) - n0
     # --- kind 2: compact on all frame sequences over 3 frames up to length 6/7, random longer ones
     maxlen = 6 if quick else 8
@@ -205,8 +242,10 @@ def _corpus_files(quick):
             out.append(p)
     out = [f for f in out if os.path.getsize(f) > 0]
     if quick:
-        out = [f for f in out if os.path.getsize(f) < 9000]
-        out = out[::3][:40]
+        # a few files of the standard library and the repository's own non-ASCII file first, then a sample of small clikit files
+        first = [f for f in out if os.path.basename(f) in ("keyword.py", "bisect.py", "colorsys.py", "fnmatch.py", "exception_trace.py")]
+        out = [f for f in out if os.path.getsize(f) < 9000 and f not in first]
+        out = first + out[::3][:36]
     else:
         out = [f for f in out if os.path.getsize(f) < 60000]
     return out
@@ -246,6 +285,19 @@ def build_source(c):
     """-> (source text, 1-based line number of the first physical line of the raise site)"""
     ind = c["ind"]
     out = []
+    if c.get("top"):
+        # module-level code that fails on line `top` (1..4) of its file
+        fill = ["import os", "X = '<b>'  # é", "", "Y = [1,"]
+        out = fill[:c["top"] - 1]
+        if c["top"] == 4:
+            out[2] = "# three"
+            out += ["raise EXC  # line 4 </b> \\"]
+        else:
+            out += ["raise EXC"]
+        for p in c["tail"]:
+            out += _expand(POOL[p], ind, 0)
+        return "\n".join(out) + "\n", c["top"]
+    out += ["P%d = %d  # filler" % (i, i) for i in range(c.get("pad", 0))]
     for p in c["head"]:
         out += _expand(POOL[p], ind, 0)
     out += ["def fail(*a):", ind + "raise a[-1]", ""]
@@ -295,6 +347,16 @@ def make_exc(kind, msg):
         return OSError(2, msg)
     if name == "SyntaxError":
         return SyntaxError(msg, ("some<b>file.py", 3, 1, "x = </b>\n"))
+    if name == "StrRaises":
+        class NoMessage(Exception):
+            def __str__(self):
+                raise RuntimeError("this exception cannot say what happened")
+        return NoMessage(msg)
+    if name == "StrNone":
+        class NoneMessage(Exception):
+            def __str__(self):
+                return None
+        return NoneMessage(msg)
     if name.startswith("Sol"):
         from crashtest.contracts.base_solution import BaseSolution
         from crashtest.contracts.provides_solution import ProvidesSolution
@@ -442,7 +504,13 @@ def _exc_code(e):
     return 109
 
 
-IGNORES = [None, "vendor", ".*", "nomatch\\^"]
+def _message_of(e):
+    """(the message, whether the exception has one): an exception whose __str__ raises or returns a non-string has no message
+    text; the report then says what CPython's own traceback says"""
+    try:
+        return str(e), True
+    except Exception:
+        return STR_FAILED, False
 
 
 def run_impl(c):
@@ -484,6 +552,8 @@ def run_impl(c):
     pattern = IGNORES[c["ignore"]]
     if pattern == "vendor":
         pattern = re.escape(r["vendor_dir"])
+    elif pattern == "progfile":
+        pattern = re.escape(r["path"]) + "$"
     if pattern is not None:
         trace.ignore_files_in(pattern)
     try:
@@ -527,8 +597,12 @@ def run_impl(c):
     if repo is not None:
         sols = [[so.solution_title, so.solution_description, list(so.documentation_links)] for so in repo.get_solutions_for_exception(e)]
     obs = {"sols": sols,"status": status, "out": out, "log": log, "frames": frames, "files": files, "cwd": os.getcwd(), "home": home,
-           "name": type(e).__name__, "msg": str(e), "pattern": pattern, "plain_out": plain_out, "run": {k: r[k] for k in ("src", "path", "site_line")}}
+           "name": type(e).__name__, "msg": _message_of(e)[0], "msg_ok": _message_of(e)[1], "pattern": pattern, "plain_out": plain_out, "run": {k: r[k] for k in ("src", "path", "site_line")}}
     os.chdir(_STATE["cwd0"])
+    if _STATE["home0"] is None:
+        os.environ.pop("HOME", None)
+    else:
+        os.environ["HOME"] = _STATE["home0"]
     import shutil
     shutil.rmtree(r["dir"], ignore_errors=True)
     return obs
@@ -536,7 +610,7 @@ def run_impl(c):
 
 def run_highlighter(c):
     from clikit.ui.components.exception_trace import Highlighter
-    text = open(c["file"], encoding="utf-8").read()
+    text = c["text"] if "text" in c else open(c["file"], encoding="utf-8").read()
     h = Highlighter(supports_utf8=bool(c["utf8"]))
     try:
         lines = h.highlighted_lines(text)
@@ -693,7 +767,16 @@ def check_snippet(block, text, tok, lineno, where):
 
 def oracle(c, o):
     if c["kind"] == 2:
-        return None          # compact is crashtest's: only the tie (model = library) is checked
+        # compact is crashtest's, not clikit's: the case family exists to tie the MODEL of compact (Trace.v, theorem
+        # compact_keeps_frames) to the library.  What the property needs from the library's answer is checked here: folding
+        # invents no frame, and every frame but the last (the failing one, shown on its own) is in some collection.
+        want = [[S("f%d.py" % (k % 2)), S("fn%d" % k), 10 + k] for k in c["seq"]]
+        flat = [f for _, frames in o["cols"] for f in frames]
+        if any(f not in want for f in flat):
+            return "compact-invents-a-frame"
+        if any(f not in flat for f in want[:-1]):
+            return "compact-loses-a-frame"
+        return None
     if c["kind"] == 1:
         if not isinstance(o["tok"], list):
             return None      # tokenize refuses the file: outside the claim
@@ -733,21 +816,24 @@ def oracle(c, o):
     out = o["out"]
     if c["fmt"] == "ansi":
         # decorated bytes: the tie compares them; the property is read on the undecorated text, which must be the same text
+        # (SGR sequences inside the message itself are removed on both sides)
         if SGR.sub("", out) != SGR.sub("", o["plain_out"]):
             return "decorated-text-differs-from-plain"
-        return None
+        # ... and every clause below is then evaluated on that undecorated rendering of the same exception
+        out = o["plain_out"]
     msg, name = o["msg"], o["name"]
-    strip_lines = lambda s: [l.rstrip() for l in s.split("\n")]
+    strip_lines = lambda s: [l.rstrip(" ") for l in s.split("\n")]
     if c["simple"]:
-        if strip_lines(out) != strip_lines(msg + "\n"):
+        if o["msg_ok"] and strip_lines(out) != strip_lines(msg + "\n"):
             return "simple-report-is-not-the-message"
         return None
     lines = out.split("\n")
     if not any(l.strip() == name.strip() for l in lines):
         return "class-name-missing"
-    want = [l.strip() for l in msg.split("\n")]
-    got = [l.strip() for l in lines]
-    if not any(got[i:i + len(want)] == want for i in range(len(got) - len(want) + 1)):
+    want = [l.strip(" ") for l in msg.split("\n")]
+    got = [l.strip(" ") for l in lines]
+    # (an exception whose __str__ fails has no message text: the clause asks nothing of it - the report must still render)
+    if o["msg_ok"] and not any(got[i:i + len(want)] == want for i in range(len(got) - len(want) + 1)):
         return "message-text-missing"
     # what the solutions say is text too
     squash = lambda t: " ".join(t.split())
